@@ -3,7 +3,7 @@
    the reply of the gated matching machine (Proofs/BrokerGateProofs.v gstep) to a poll does not depend on the
    machine state, hence not on the history of polls, client offers, answers and timeouts that produced it. *)
 From Coq Require Import List NArith ZArith Bool Arith Lia.
-From Snow Require Import Lib.Wire Model.NameMatcher Model.RelayCheck Model.Broker Proofs.BrokerProofs
+From Snow Require Import Lib.Wire Model.NameMatcher Model.RelayCheck Model.Broker Model.BrokerGate Proofs.BrokerProofs
   Proofs.NameMatcherProofs Proofs.BrokerGateProofs.
 Import ListNotations.
 Open Scope N_scope.
@@ -75,28 +75,6 @@ Proof.
 Qed.
 
 (* ------------------------------------------------------------------ gated matching machine *)
-
-Fixpoint grun (cfg : broker_cfg) (v : version) (s : state) (gs : list glabel)
-  : option (state * list (option poll_reply)) :=
-  match gs with
-  | [] => Some (s, [])
-  | g :: r =>
-      match gstep cfg v s g with
-      | None => None
-      | Some (s1, o) =>
-          match grun cfg v s1 r with
-          | None => None
-          | Some (s2, os) => Some (s2, o :: os)
-          end
-      end
-  end.
-
-(* what the gate answers to a label, as a function of the label alone *)
-Definition gate_reply (cfg : broker_cfg) (g : glabel) : option poll_reply :=
-  match g with
-  | G_ProxyPoll _ _ _ _ pat => Some (if broker_accepts_poll cfg pat then Registered else RejectedPattern)
-  | G_Other _ => None
-  end.
 
 Lemma gstep_reply : forall cfg v s g s' r, gstep cfg v s g = Some (s', r) -> r = gate_reply cfg g.
 Proof.
